@@ -110,6 +110,7 @@ type Profile struct {
 	StopBeforeRun bool
 	Deadline      time.Duration
 	Retain        bool // fetcher spec: the consumer keeps every EntryBatch as delivered and reads it again later
+	Encore        bool // after a completed run: a second Fetcher built from the very same FetcherOptions value (as trillian/integration/copier.go builds two) / a second scan with the same Scanner
 }
 
 type delivery struct {
@@ -171,10 +172,13 @@ type World struct {
 	grewConsumed  bool
 	flatStart     int64 // first and last index of the most recent entry-bearing answer
 	flatEnd       int64
-	quiet         bool                 // no event-log lines (drain after cancel)
-	drained       bool                 // a cancelled scan has been run to its end (or given up on)
-	idleAdvances  int                  // settle phase: consecutive steps in which only the clock could be advanced
-	retained      []scanner.EntryBatch // batches kept by the consumer exactly as delivered
+	quiet         bool                    // no event-log lines (drain after cancel)
+	drained       bool                    // a cancelled scan has been run to its end (or given up on)
+	idleAdvances  int                     // settle phase: consecutive steps in which only the clock could be advanced
+	retained      []scanner.EntryBatch    // batches kept by the consumer exactly as delivered
+	fo            *scanner.FetcherOptions // the options value the run's Fetcher was built from
+	encores       int                     // second runs started so far
+	firstEnd      int64                   // encore: the end of the range the first run worked on
 }
 
 // New returns a constructor for the kernel.
@@ -318,6 +322,7 @@ func (w *World) Init(s *kernel.Sim) {
 	}
 	p.ClockNoise = t.Chance(1, 3)
 	p.Retain = !w.mode.Scanner && t.Chance(1, 2)
+	p.Encore = !p.Continuous && t.Chance(1, 3)
 	if !w.mode.Scanner {
 		p.PrepareFirst = t.Chance(1, 4)   // Prepare() before Run(), as ScanLog and migrillian do
 		p.StopBeforeRun = t.Chance(1, 12) // Stop() on a Fetcher whose Run has not been called: documented no-op
@@ -400,6 +405,7 @@ func (w *World) Init(s *kernel.Sim) {
 			w.finish(err)
 		}
 	} else {
+		w.fo = &fo
 		w.fetcher = scanner.NewFetcher(w.log, &fo)
 		w.run = func() {
 			if p.PrepareFirst {
@@ -1163,6 +1169,16 @@ func (w *World) judgeComplete(lo, hi int64, why string) {
 	w.logf("complete: [%d,%d) %d indices judged (%s)", lo, hi, n, why)
 }
 
+// nothingFrom: no index of [lo, hi) was delivered (fetcher) / reached a callback (scanner).
+func (w *World) nothingFrom(lo, hi int64) bool {
+	for idx := max64(lo, 0); idx < hi; idx++ {
+		if w.delivered[idx] > 0 || w.cb[idx] != [3]int{} {
+			return false
+		}
+	}
+	return true
+}
+
 func (w *World) judgeDone() {
 	s := w.s
 	w.judged = true
@@ -1195,7 +1211,19 @@ func (w *World) judgeDone() {
 	userCancel := w.cancelled && !w.settleEnded
 	if !w.prof.Continuous && !userStop && !userCancel && w.sthPrep >= 0 && w.runErr == nil {
 		s.Probe("run.completed")
-		w.judgeComplete(w.prof.Start, w.expectedEnd(), "completed")
+		hi, why := w.expectedEnd(), "completed"
+		if w.encores > 0 {
+			// The statement says nothing about where a range with EndIndex 0 ("to the end of the log") ends when the options
+			// value or the Scanner is used a second time after the log has grown: at the size the first run saw (the shipped
+			// Prepare writes the clamped EndIndex back into the options it was given) or at the size the second run sees.
+			// Either is accepted - but it must be one of them, from the caller's StartIndex, every index exactly once.
+			why = "completed (second run over the same options)"
+			s.Probe("encore.completed")
+			if w.firstEnd < hi && w.nothingFrom(w.firstEnd, hi) {
+				hi = w.firstEnd
+			}
+		}
+		w.judgeComplete(w.prof.Start, hi, why)
 		if l, b := w.expectedEnd()-w.prof.Start, int64(w.prof.Batch); l <= 0 {
 			s.Probe("range.empty")
 		} else {
@@ -1214,6 +1242,10 @@ func (w *World) judgeDone() {
 				s.Probe("range.end-clipped")
 			}
 		}
+	}
+	if w.prof.Encore && w.encores == 0 && !s.Timed && !s.Violated() && !w.prof.Continuous && !userStop && !userCancel && w.sthPrep >= 0 && w.runErr == nil && !w.settleEnded {
+		w.startEncore()
+		return
 	}
 	if w.prof.Continuous && !w.mode.Scanner && w.stopEffective && !w.cancelled && !s.Violated() {
 		// stopped, not cancelled: started fetches were finished, so what was delivered is a gap-free run of indices from StartIndex
@@ -1234,6 +1266,52 @@ func (w *World) judgeDone() {
 	if len(w.served) > 0 && !s.Violated() { // entries were fetched and what became of them was judged
 		s.Probe("nontrivial")
 	}
+}
+
+// startEncore: the run has completed and was judged. Start over with fresh books: a second Fetcher built from the very
+// same FetcherOptions value the first one was built from (trillian/integration/copier.go builds its certificate and its
+// precertificate fetcher that way; Scanner.ScanLog builds a new Fetcher over the Scanner's own options on every call),
+// respectively a second scan with the same Scanner. Fetching the range again must again deliver every index of it
+// exactly once - whatever the first run left behind in the options, the Scanner or package variables.
+func (w *World) startEncore() {
+	s := w.s
+	w.encores++
+	s.Probe("encore.started")
+	w.logf("encore: the same range again (%s)", map[bool]string{true: "same Scanner, scanned again", false: "second Fetcher over the same FetcherOptions value"}[w.mode.Scanner])
+	if len(w.served) > 0 {
+		s.Probe("nontrivial")
+	}
+	w.mu.Lock()
+	w.pending, w.done, w.runErr = nil, false, nil
+	w.mu.Unlock()
+	w.judged = false
+	w.firstEnd = w.expectedEnd()
+	if !w.mode.Scanner {
+		w.sthPrep = -1 // a new Fetcher asks for a tree head of its own; a Scanner keeps its Fetcher, and that one its tree head
+	}
+	w.delivered = map[int64]int{}
+	w.cb = map[int64][3]int{}
+	w.nDelivered = 0
+	w.served = map[int64]int{}
+	w.lastAnswer = map[string]string{}
+	w.streak = map[string]int{}
+	w.fetchEnd, w.flatStart, w.flatEnd = 0, 0, 0
+	w.retained = nil
+	w.caughtUpSeen, w.grewConsumed = false, false
+	p := &w.prof
+	run := w.run
+	if !w.mode.Scanner {
+		w.fetcher = scanner.NewFetcher(w.log, w.fo)
+		f := w.fetcher
+		run = func() { w.finish(f.Run(w.ctx, w.onBatch)) }
+	}
+	_ = p
+	s.Go(func() {
+		if w.ls != nil {
+			w.ls.RT.SetName("run2")
+		}
+		run()
+	})
 }
 
 // AfterStep implements kernel.World.
